@@ -2,8 +2,8 @@
 # Runs every seeded change against the check of its own property (quick tier) on a scratch copy of /repo.
 # usage: mutant_matrix.sh [ids...]   -> writes /verif/seeded/MATRIX.txt lines "<seed> <prop> CAUGHT|MISSED <first line>"
 cd /verif
-OUT=/verif/seeded/MATRIX.txt
-IDS=${@:-$(ls seeded | grep -E '^C[0-9]+[a-h]$')}
+OUT=${MATRIX_OUT:-/verif/seeded/MATRIX.txt}
+IDS=${@:-$(ls seeded | grep -E '^C[0-9]+[a-i]$')}
 one() {
   id=$1; prop=${id:0:3}
   [ -f /verif/harness/props/$(echo $prop | tr A-Z a-z).py ] || { echo "$id $prop NOCHECK"; return; }
